@@ -49,6 +49,8 @@ type gstate struct {
 	popped   []string // timer goroutine: peers handed to afterCooldown, in order
 	held     map[string]bool
 	goids    []uint64
+	curOp    string // stress: the operation the caller is executing
+	curPeer  string
 }
 
 // Sched is installed as the peers package's hook set.
@@ -66,6 +68,10 @@ type Sched struct {
 	keepLog bool
 	onEvent func(g *gstate, e Event) // called under mu for managed goroutines (free-running mode)
 	timerN  int
+	// free-running stress
+	uniqueTimers bool              // every timer goroutine gets a fresh name
+	preLock      func(ev string)   // called WITHOUT s.mu before the event is recorded
+	postUnlock   func(ev string)   // called WITHOUT s.mu after the event was recorded
 }
 
 var theSched atomic.Pointer[Sched]
@@ -153,6 +159,12 @@ func (s *Sched) ev(obj any, ev string, id peer.ID) {
 		return
 	}
 	goid := curGoid()
+	if s.preLock != nil {
+		s.preLock(ev)
+	}
+	if s.postUnlock != nil {
+		defer s.postUnlock(ev)
+	}
 	s.mu.Lock()
 	defer s.mu.Unlock()
 	g := s.byGoid[goid]
@@ -162,6 +174,10 @@ func (s *Sched) ev(obj any, ev string, id peer.ID) {
 		}
 		// a goroutine started by the queue's timer
 		name := ""
+		if s.uniqueTimers {
+			s.timerN++
+			name = fmt.Sprintf("T%d", s.timerN)
+		}
 		for _, sl := range s.slots {
 			if o := s.byName[sl]; o == nil || o.done {
 				name = sl
@@ -171,6 +187,13 @@ func (s *Sched) ev(obj any, ev string, id peer.ID) {
 		if name == "" {
 			s.timerN++
 			name = fmt.Sprintf("t-extra-%d", s.timerN)
+		}
+		if s.uniqueTimers { // forget finished timer goroutines
+			for n, o := range s.byName {
+				if o.isTimer && o.done {
+					delete(s.byName, n)
+				}
+			}
 		}
 		g = &gstate{name: name, isTimer: true, held: map[string]bool{}, goids: []uint64{goid}}
 		s.byGoid[goid] = g
